@@ -226,16 +226,23 @@ def _toplevel_forbidden(src):
 
 def coqchk(prop):
     """Thorough tier: independent re-check of the property's compiled file and its dependencies."""
-    rc, out = sh("timeout 3000 coqchk -o -silent -Q . SA SA.Properties.%s 2>&1 | tail -40" % prop, 3100, cwd=COQ)
-    return {"rc": rc, "tail": out[-3000:], "ok": rc == 0 and "Modules were successfully checked" in out}
+    rc, out = sh("timeout 3000 coqchk -o -silent -Q . SA SA.Properties.%s" % prop, 3100, cwd=COQ)
+    axioms = []
+    m = re.search(r"\* Axioms:(.*?)\n\s*\n\* ", out + "\n\n* ", re.S)
+    if m and "<none>" not in m.group(1):
+        axioms = [l.strip() for l in m.group(1).splitlines() if l.strip()]
+    bad = [a for a in axioms if a.split()[0] not in ALLOWED_AXIOMS]
+    return {"rc": rc, "tail": out[-1500:], "axioms": axioms,
+            "ok": rc == 0 and "CONTEXT SUMMARY" in out and not bad
+                  and "type-in-type: <none>" in out and "positivity is assumed: <none>" in out}
 
 
 # ------------------------------------------------------------------------------------------------
 # pipeline: programs -> implementation / model / monitors
 
-SIZES = {"quick": dict(wf=150, fault=114, free=120, known=9, chains=25, chain_exh=3, perm_bases=70, perms=3, stub_bases=40),
-         "thorough": dict(wf=3000, fault=1900, free=3000, known=60, chains=300, chain_exh=6, perm_bases=500, perms=4, stub_bases=400),
-         "search": dict(wf=900, fault=570, free=900, known=30, chains=60, chain_exh=4, perm_bases=150, perms=3, stub_bases=120)}
+SIZES = {"quick": dict(wf=150, fault=114, free=120, known=9, chains=25, chain_exh=3, perm_bases=70, perms=3, stub_bases=40, skel=2, names=False),
+         "thorough": dict(wf=3000, fault=1900, free=3000, known=60, chains=300, chain_exh=6, perm_bases=500, perms=4, stub_bases=400, skel=4, names=True),
+         "search": dict(wf=900, fault=570, free=900, known=30, chains=60, chain_exh=4, perm_bases=150, perms=3, stub_bases=120, skel=3, names=False)}
 
 
 def corpus_programs():
@@ -256,7 +263,7 @@ def run_side(binary, mode, inp, outp, extra=None):
     return p.returncode, p.stdout
 
 
-def run_programs(progs, workdir, shards=16, want_model=True):
+def run_programs(progs, workdir, shards=16, want_model=True, tier="quick"):
     """progs: list of program texts. Returns (impl_lines, model_lines, monitor_lines, problems)."""
     os.makedirs(workdir, exist_ok=True)
     n = len(progs)
@@ -275,8 +282,11 @@ def run_programs(progs, workdir, shards=16, want_model=True):
             rc, out = run_side(MODEL, "run", base + ".sexp", base + ".model")
             if rc != 0:
                 return k, "model rc=%d %s" % (rc, out[-300:])
+            menv = dict(os.environ)
+            menv["VERIF_C05_K"] = "9" if tier == "thorough" else "6"
+            menv["VERIF_C05_FUEL"] = "600" if tier == "thorough" else "400"
             rc, out = subprocess.run([MODEL, "monitor", base + ".sexp", base + ".impl", base + ".mon"],
-                                     stdout=subprocess.PIPE, stderr=subprocess.STDOUT, text=True,
+                                     stdout=subprocess.PIPE, stderr=subprocess.STDOUT, text=True, env=menv,
                                      timeout=3000, preexec_fn=_unlimit_stack).returncode, ""
             if rc != 0:
                 return k, "monitor rc=%d" % rc
@@ -323,6 +333,8 @@ def pipeline(seed, tier):
         batch.append((ser(p), m))
     for p, m in gen.gen_chains_random(seed + 1, sz["chains"]) + gen.gen_chains_exhaustive(seed + 2, sz["chain_exh"]):
         batch.append((ser(p), m))
+    for p, m in gen.gen_skeletons(sz["skel"]) + (gen.gen_name_triples() if sz["names"] else []):
+        batch.append((ser(p), m))
     # derived programs (C16: permutations; C17: stubbed bodies), linked to their base by index
     import random as _random
     drng = _random.Random(seed * 7 + 3)
@@ -365,7 +377,7 @@ def pipeline(seed, tier):
         r.cached = True
         return r
     t0 = time.time()
-    r.impl, r.model, r.mon, r.problems = run_programs(r.programs, d)
+    r.impl, r.model, r.mon, r.problems = run_programs(r.programs, d, tier=tier)
     r.cached = False
     r.wall = time.time() - t0
     import gzip
